@@ -36,7 +36,8 @@ def P(src: str) -> ast.AST:
 
 
 def same(a: ast.AST, b: ast.AST) -> bool:
-    return ast.dump(a) == ast.dump(b)
+    # structural equality ignoring Load/Store context
+    return ast.unparse(a) == ast.unparse(b)
 
 
 def _mv(node) -> Optional[str]:
